@@ -266,6 +266,35 @@ def maa_chain(rng: random.Random, k: int = 15):
     return net(names, exprs, "maa-chain")
 
 
+def cond_maa(rng: random.Random, nmax: int = 7):
+    """A motif-avoidant gadget whose behaviour depends on an input or a switch through one extra clause on one of
+    its variables (same variables and often the same stable motifs under both input values, different dynamics):
+    verdicts such as "this block has no motif-avoidant attractor" must not be shared between input valuations."""
+    vs, fs = (_mod_maa1 if rng.random() < 0.6 else _mod_maa2)("g")
+    names, exprs = [], {}
+    if rng.random() < 0.6:
+        names.append("s")
+        exprs["s"] = V("s")
+        ctl = "s"
+    else:
+        names += ["p", "q"]
+        exprs["p"], exprs["q"] = V("q"), V("p")
+        ctl = "p"
+    lit = V(ctl) if rng.random() < 0.5 else NOT(V(ctl))
+    tgt = rng.choice(vs)
+    pat = [V(v) if rng.random() < 0.5 else NOT(V(v)) for v in rng.sample(vs, rng.randint(1, len(vs)))]
+    clause = AND(lit, *pat)
+    fs[tgt] = OR(fs[tgt], clause) if rng.random() < 0.6 else AND(fs[tgt], OR(NOT(lit), *pat))
+    names += vs
+    exprs.update(fs)
+    while len(names) < nmax - 1 and rng.random() < 0.5:
+        k = f"e{len(names)}"
+        src = rng.choice(names)
+        exprs[k] = rng.choice([V(src), NOT(V(src)), AND(V(k), V(src)), OR(V(k), V(src))])
+        names.append(k)
+    return rename_net(rng, net(names, exprs, "cond-maa"))
+
+
 def overlap_maa(rng: random.Random, rename=True, variant=None):
     """Two independent switches p, a; a third switch b available only under p; an MAA
     gadget gated by p & a & b.  Structure on which skip-node pruning by intersections is
@@ -438,6 +467,8 @@ def draw(rng: random.Random, classes, nmax: int):
         if nmax < 7:
             return gadget_net(rng, max_vars=max(3, nmax))
         return overlap_maa(rng, variant=None if nmax >= 9 else rng.choice([2, 3]))
+    if cls == "cond-maa":
+        return cond_maa(rng, max(5, nmax))
     if cls == "rings":
         return rings_net(rng, max(4, nmax))
     if cls == "inputs":
